@@ -207,7 +207,7 @@ impl PriceLevel {
 
                 // update statistics
                 self.stats
-                    .record_execution(consumed, order_arc.price(), order_arc.timestamp());
+                    .record_execution(consumed, self.price, order_arc.timestamp());
 
                 if let Some(updated) = updated_order {
                     if consumed == 0 && hidden_reduced == 0 {
